@@ -492,7 +492,15 @@ def custom_regexes():
     lits = re.findall(r'r"((?:[^"\\]|\\.)*)"', m.group(2))
     if len(lits) != int(m.group(1)):
         return None
-    return [re.compile(l[:-1] + r"\Z" if l.endswith("$") else l) for l in lits]
+    out = []
+    for l in lits:
+        flags = 0
+        m2 = re.match(r"\(\?([a-z]*)-u\)", l)      # Rust (?i-u): case-insensitive, ASCII only -> Python (?i) + re.ASCII
+        if m2:
+            l = "(?%s)" % m2.group(1) + l[m2.end():] if m2.group(1) else l[m2.end():]
+            flags = re.ASCII
+        out.append(re.compile(l[:-1] + r"\Z" if l.endswith("$") else l, flags))
+    return out
 
 
 def frames_of(bs):
